@@ -1,3 +1,4 @@
+import Firebolt.TransExpected
 import Firebolt.Properties.TransBase
 import Firebolt.Properties.ExecFlow
 import Firebolt.Spec.ExecTrace
@@ -182,12 +183,8 @@ open Firebolt.MiniGo Firebolt.TransBase
 /-- handleResult, translated from the source: an error goes to handleFailure only; an empty result counts as filtered and
 reaches no child; anything else counts as processed once and is handed to every child -/
 theorem translated_handleResult (σ : Env) :
-    obs Trans.handleResult σ =
-      if σ "err" ≠ 0 then ⟨[("nc.handleFailure", [σ "event", σ "err"])], none, false⟩
-      else if σ "len(result)" = 0 then ⟨[("metrics.Node().Filtered.WithLabelValues(nc.Config.ID).Inc", [])], none, false⟩
-      else ⟨[("metrics.Node().Successes.WithLabelValues(nc.Config.ID).Inc", []),
-             ("foreach nc.Children: nc.deliverToChild", [σ "childNode", σ "result"])], none, false⟩ := by
-  by_cases h1 : σ "err" = 0 <;> by_cases h2 : σ "len(result)" = 0 <;> minigo_simp [Trans.handleResult, h1, h2]
+    obs Trans.handleResult σ = TransExpected.handleResult σ := by
+  by_cases h1 : σ "err" = 0 <;> by_cases h2 : σ "len(result)" = 0 <;> minigo_simp [TransExpected.handleResult, Trans.handleResult, h1, h2]
 end Translated
 
 theorem closure_unchanged : GeneratedClo.C01 = ExpectedClo.C01 := by rfl
